@@ -33,5 +33,6 @@ Slack == IF DevEagerTieDesync /\ IsTieProbe THEN N ELSE 0
 BoundedDecision == ended => \A p \in Running(st) : st[p].decided /\ st[p].dround <= r0 + N + Slack
 AllStartedAtEnd == ended => \A p \in Honest : st[p].running => st[p].started
 TMark == /\ CheckInv("BoundedDecision", BoundedDecision) /\ CheckInv("AllStartedAtEnd", AllStartedAtEnd)
+         /\ CheckInv("NoHonestUnjust", NoHonestUnjust)
          /\ Mark
 ====
